@@ -236,8 +236,16 @@ def _entry_for_loop(run, rule, f, g, h, body, calls, ba, fr):
         ends_ok = True
     else:
         _, a, b, step = shape
-        uses_var = all(isinstance(c.func, ast.Subscript) and isinstance(c.func.value, ast.Name) and c.func.value.id in fr.bufenv
-                       and isinstance(c.func.slice, ast.Name) and c.func.slice.id == tname for n, c in calls)
+        from .util import expand_locals
+
+        def through_var(c):
+            fn = c.func
+            if isinstance(fn, ast.Name):                                # `fn = buf[i]; fn(self, e)` is buf[i](self, e) (one level: the buffer itself is not expanded)
+                ds_ = [d_ for d_ in local_defs(f.node).get(fn.id, []) if isinstance(d_, ast.AST)]
+                if len(ds_) == 1 and isinstance(ds_[0], ast.Subscript):
+                    fn = ds_[0]
+            return isinstance(fn, ast.Subscript) and isinstance(fn.value, ast.Name) and fn.value.id in fr.bufenv and isinstance(fn.slice, ast.Name) and fn.slice.id == tname
+        uses_var = all(through_var(c) for n, c in calls)
         order_ok = step == -1
         ends_ok = isinstance(b, ast.UnaryOp) and isinstance(b.op, ast.USub) and isinstance(b.operand, ast.Constant) and b.operand.value == 1
     start = [m for m, l in g.succ[h] if l == 'iter']
@@ -947,6 +955,16 @@ def progress_rules(run, model, rule='HSM-PROGRESS'):
                 if any(status_const(y) in ('SUPER', 'HANDLED', 'TRAN', 'IGNORED') for y in ast.walk(t.ast)):
                     if t is h or any(guarded_by_edge(g, b, t, lab) for b in brks for lab in ('true', 'false')):
                         steer = True
+            if not steer:
+                # the same through a loop-control flag: `while not done: ... if answer != TRAN: done = True`
+                inner_t, _pol = strip_not(h.ast)
+                if isinstance(inner_t, ast.Name):
+                    sets = [n for n in g.nodes if n.kind == 'stmt' and isinstance(n.ast, ast.Assign) and any(y is n.ast for y in ast.walk(h.stmt))
+                            and any(isinstance(tg, ast.Name) and tg.id == inner_t.id for tg in n.ast.targets) and isinstance(n.ast.value, ast.Constant) and isinstance(n.ast.value.value, bool)]
+                    for t in [x for x in g.nodes if x.kind == 'test' and any(y is x.ast for y in ast.walk(h.stmt))]:
+                        if any(status_const(y) in ('SUPER', 'HANDLED', 'TRAN', 'IGNORED') for y in ast.walk(t.ast)) and \
+                                any(guarded_by_edge(g, s_, t, lab) for s_ in sets for lab in ('true', 'false')):
+                            steer = True
             if steer:
                 kind = 'result-steered'
                 run.inst(rule + '.loops', f, 'loop `while %s` is steered by a handler answer (top ends it)' % guard_txt, True, node=h.ast, obligation=True)
